@@ -6,6 +6,7 @@
 -/
 import Nuts.Model.Tx
 import Nuts.Spec.DB
+import NutsProofs.Lemmas.BPTreeRefine
 namespace NutsProofs.C03
 open Nuts Nuts.Model Nuts.Model.DB
 
@@ -51,5 +52,28 @@ theorem C03_witness_tombstone_consumes_limit :
     prefixScan sW [97] [112] 0 1 0 = .err ∧
     (prefixScan sW [97] [112] 0 (-1) 0).map (fun l => l.map fun o => o.map (·.key)) = .ok [some [112, 50]] := by
   decide
+
+/-! ### the scans walk a B+ tree
+
+`DB.rangeScan` and `DB.prefixScan` select from the sorted association list. The code descends to the leaf
+`FindLeaf(start)` reaches, skips the smaller keys *in that leaf only* and then follows the leaf chain. On
+every well-formed tree (every tree `Insert` builds, theorem `C01_tree_index_refines_sorted_list`) the two
+coincide. -/
+
+open Nuts.Model.BPTree NutsProofs.BPT in
+/-- **C03 (range scan on the tree).** `findRange(start, end)` on a well-formed B+ tree returns exactly the
+records with `start ≤ key ≤ end`, in ascending order. -/
+theorem C03_tree_range_is_filter (t : Tree Idx) (h : Tree.WF t) (st en : Bytes) :
+    Tree.range t st en = t.toList.filter fun p => ble st p.1 && ble p.1 en :=
+  Tree.range_eq_filter t h st en
+
+open Nuts.Model.BPTree NutsProofs.BPT in
+/-- **C03 (prefix scans on the tree).** `PrefixScan` / `PrefixSearchScan` on a well-formed B+ tree return
+the records, and the final offset counter, of `DB.prefixWalk` on the sorted list, for every prefix, offset,
+limit and match predicate. -/
+theorem C03_tree_prefix_scan_is_walk (t : Tree Idx) (h : Tree.WF t) (pre : Bytes) (off lim : Int) (mt : Bytes → Bool) :
+    ((Tree.prefixScan t pre off lim mt).1.map (·.2), (Tree.prefixScan t pre off lim mt).2) =
+      prefixWalk t.toList pre off lim mt :=
+  Tree.prefixScan_eq_walk t h pre off lim mt
 
 end NutsProofs.C03
